@@ -170,7 +170,7 @@ def replay(case):
 
 def plan(tier, seed):
     if tier == "quick":
-        return [{"kind": "machine", "examples": 25, "steps": 6, "seed": seed * 1000 + k} for k in range(12)]
+        return [{"kind": "machine", "examples": 100, "steps": 6, "seed": seed * 1000 + k} for k in range(16)]
     return [{"kind": "machine", "examples": 350, "steps": 8, "seed": seed * 1000 + k} for k in range(16)]
 
 
